@@ -39,6 +39,14 @@ func (s *Store) SplitRegion(parentID uint64, childMeta manifest.RegionMeta) (*pe
 	if bytes.Compare(childMeta.StartKey, parentMeta.StartKey) <= 0 {
 		return nil, fmt.Errorf("raftstore: split key must be greater than parent start key")
 	}
+	// The child takes over exactly the upper part of the parent: [split key, parent end).
+	// A child that names no end inherits the parent's; any other end would leave a hole or
+	// overlap the parent's right neighbour.
+	if len(childMeta.EndKey) == 0 {
+		childMeta.EndKey = append([]byte(nil), parentMeta.EndKey...)
+	} else if !bytes.Equal(childMeta.EndKey, parentMeta.EndKey) {
+		return nil, fmt.Errorf("raftstore: child end key must equal parent end key")
+	}
 	newParent := parentMeta
 	newParent.EndKey = append([]byte(nil), childMeta.StartKey...)
 	newParent.Epoch.Version++
